@@ -99,6 +99,15 @@ def param_file(b, member, vis, storage, named, write, pos):
     return b.source_unit(parts)
 
 
+def two_param_file(b, vis, first, second):
+    """function with two reference-type parameters; each is (storage, named)"""
+    arr = lambda: b.index(b.ty('Uint', 256))
+    ps = [b.param(arr(), first[0], 'p' if first[1] else None), b.param(b.ty('Address'), None, None),
+          b.param(arr(), second[0], 'r' if second[1] else None), b.param(b.ty('DynamicBytes'), 'Memory', None)]
+    fn = b.function('Function', 'batch', ps, [b.fattr('visibility', vis)], b.block([b.expr_stmt(b.var('q'))]))
+    return b.source_unit([b.pragma('solidity', '0.8.16'), fam.contract_with(b, [fn])])
+
+
 def all_cases(chk):
     out = []
     pos_all = list(fam.STMT_POSITIONS)
@@ -131,6 +140,9 @@ def all_cases(chk):
                                                          ['Memory', 'Calldata', 'Storage', None], (True, False)):
         out.append(('param %s %s %s named=%s no write' % (member, vis, storage, named),
                     lambda b, a=(member, vis, storage, named): param_file(b, *a, None, 'statement')))
+    for vis, first, second in itertools.product(['external', 'public', 'internal'], [('Memory', True), ('Memory', False), ('Calldata', True)],
+                                                [('Memory', True), ('Memory', False), ('Calldata', False), (None, False)]):
+        out.append(('two params %s %r %r' % (vis, first, second), lambda b, a=(vis, first, second): two_param_file(b, *a)))
     for form, tkind in itertools.product(['Assign', 'AssignAdd', 'PostIncrement', 'AssignOr'], ['direct', 'index', 'member', 'tuple', 'other_name']):
         for pos in (pos_q if form == 'Assign' and tkind in ('direct', 'index') else ['statement']):
             for vis in ('public', 'external', 'internal'):
@@ -160,8 +172,9 @@ def body(chk):
     n = len(all_cases(chk))
     idx = list(range(n))
     if chk.quick and n > 900:
+        core = [i for i, (l, _) in enumerate(all_cases(chk)) if l.startswith('two params')]
         chk.rng.shuffle(idx)
-        idx = sorted(idx[:900])
+        idx = sorted(set(idx[:900]) | set(core))
     chk.bounds = {'files': '%d of %d x 4 detectors' % (len(idx), n),
                   'writes': '15 write forms x target (direct / index / member / tuple / parenthesised / other name) x member (constructor, public / internal function, modifier, '
                             'free function, fallback, library function) x position; variable kinds: elementary, initialised, constant, immutable, mapping, string, user-defined',
